@@ -205,7 +205,7 @@ class GuderleyA(Adapter):
     scan = 65
     max_jumps = 1
     order = 4
-    rel_steps = (3e-3, 1e-3)
+    rel_steps = (1e-3,)
 
     def build(self):
         memo_shock_position()
@@ -232,11 +232,11 @@ class SedovA(Adapter):
     no smearing), and only NODE nodes lie inside the shock so a call costs milliseconds."""
     NODE = 8
     arity = 2
-    scan = 257
+    scan = 129
     geometric = True
     max_jumps = 1
     order = 4
-    rel_steps = (1e-2, 3e-3)
+    rel_steps = (3e-3,)
 
     def Fat(self, x, t):
         x = np.asarray(x, float)
@@ -318,3 +318,14 @@ def times(name, cfg, tier="thorough"):
     if name.startswith("GenEOS") and tier == "quick":
         ts = ts[-1:]
     return ts
+
+
+def solver_fault(ex):
+    """True if the exception was raised underneath exactpack code (a solver fault: C20's business, counted by the
+    caller); False if no exactpack frame is on the traceback (a fault of the harness, which must surface)."""
+    tb = ex.__traceback__
+    while tb is not None:
+        if "exactpack" in tb.tb_frame.f_code.co_filename:
+            return True
+        tb = tb.tb_next
+    return False
